@@ -99,37 +99,60 @@ def run(prog, rep, tier):
     tp = facts.const("s4::CLI_DT_FILTER_APPEND_TIME_PATTERN")
     rep.examined(R142, b.path + "|midnight-constants", sample={"value": tv, "pattern": tp})
     if not isinstance(tv, str) or not isinstance(tp, str):
-        raise CheckerError("midnight completion constants not found")
-    expect_val = tp.replace("%H", "00").replace("%M", "00").replace("%S", "00")
-    if expect_val != tv or "%" in expect_val:
-        rep.violation(R142, b.path + "|midnight-constants", "process_dt: the time completion value %r does not denote 00:00:00 under the completion pattern %r" % (tv, tp))
-    if tv not in appended or tp not in appended:
-        rep.violation(R142, b.path + "|midnight-paired", "process_dt: the midnight completion is not appended to both the value and the pattern")
+        # the bare-date rows are not completed textually: accept a direct construction, provided the
+        # date parsed from the user's text (a wall-clock value) becomes midnight *in the --tz-offset zone*
+        # (TimeZone::from_local_datetime); reading it as a UTC value (from_utc_datetime, and_utc) makes
+        # `-a 20200102 -t +09:00` start nine hours late
+        direct = []
+        for c in b.live_calls():
+            nm_ = c.d.split("::")[-1]
+            if nm_ not in ("from_utc_datetime", "from_local_datetime", "and_utc", "and_local_timezone"):
+                continue
+            naive_arg = c.args[-1] if nm_ in ("from_utc_datetime", "from_local_datetime") else c.args[0]
+            srcs = set()
+            for o in b.origins(naive_arg, through_calls=("and_time", "and_hms", "::deref", "unwrap", "::from")):
+                if o[0] == "call":
+                    srcs.add(o[2])
+            if any("NaiveDate" in x_ and "parse_from_str" in x_ for x_ in srcs):
+                direct.append((c, nm_))
+        if not direct:
+            raise CheckerError("midnight completion constants not found")
+        for (c, nm_) in direct:
+            rep.examined(R142, b.path + "|midnight-direct|" + nm_, sample={"line": c.line, "conversion": nm_})
+            if nm_ in ("from_utc_datetime", "and_utc"):
+                rep.violation(R142, b.path + "|midnight-direct|as-utc", "process_dt (line %d): a bare date is parsed to a NaiveDate and turned into a DateTime with %s(), i.e. read as 00:00:00 UTC and only displayed in the --tz-offset zone; "
+                              "the documented meaning is 00:00:00 in that zone (`-t +09:00 -a 20200102` must resolve to 2020-01-01T15:00Z)" % (c.line, nm_))
     else:
-        cv, tgt_v = appended[tv]
-        cp, tgt_p = appended[tp]
-        # paired: same guard (has_time false), each reaches the other or same block chain, and both before the parse call
-        paired = (b.dominates(cv.bb, cp.bb) or b.dominates(cp.bb, cv.bb))
-        first, second = (cv, cp) if b.dominates(cv.bb, cp.bb) else (cp, cv)
-        no_skip = b.must_pass(first.bb, second.bb, set()) and second.bb in b.reachable_after(first.bb) and \
-            not any(x not in b.reachable(second.bb) and x != second.bb and b.term(x)[0] == "ret" for x in [])
-        # guard: find switch on the row's has_time (tuple field 4)
-        guard_ok = False
-        for bb in sorted(b.live):
-            t = b.term(bb)
-            if t[0] == "switch" and len(t) > 4 and t[4] == "bool":
-                o = b.origins(t[1], through_calls=("ops::Not>::not", "::not", "::deref"))
-                if any(x[0] == "call" and x[2].endswith("::next") and "4" in x[3] for x in o):
-                    arms = {int(v): tb for v, tb in t[2]}
-                    # `!has_time` : Not() applied -> true arm means has_time false. Accept either polarity but both pushes must sit under the same arm
-                    for tgt in set(list(arms.values()) + [t[3]]):
-                        if tgt != bb and b.dominates(tgt, cv.bb) and b.dominates(tgt, cp.bb):
-                            guard_ok = True
-        rep.examined(R142, b.path + "|midnight-paired", sample={"value_target": sorted(map(str, tgt_v)), "pattern_target": sorted(map(str, tgt_p)), "paired": paired, "guarded_by_has_time": guard_ok})
-        if not paired or not guard_ok:
-            rep.violation(R142, b.path + "|midnight-paired", "process_dt: value and pattern are not completed together under the row's has_time flag")
-        if tgt_v == tgt_p:
-            rep.violation(R142, b.path + "|midnight-targets", "process_dt: time value and time pattern are appended to the same string")
+        expect_val = tp.replace("%H", "00").replace("%M", "00").replace("%S", "00")
+        if expect_val != tv or "%" in expect_val:
+            rep.violation(R142, b.path + "|midnight-constants", "process_dt: the time completion value %r does not denote 00:00:00 under the completion pattern %r" % (tv, tp))
+        if tv not in appended or tp not in appended:
+            rep.violation(R142, b.path + "|midnight-paired", "process_dt: the midnight completion is not appended to both the value and the pattern")
+        else:
+            cv, tgt_v = appended[tv]
+            cp, tgt_p = appended[tp]
+            # paired: same guard (has_time false), each reaches the other or same block chain, and both before the parse call
+            paired = (b.dominates(cv.bb, cp.bb) or b.dominates(cp.bb, cv.bb))
+            first, second = (cv, cp) if b.dominates(cv.bb, cp.bb) else (cp, cv)
+            no_skip = b.must_pass(first.bb, second.bb, set()) and second.bb in b.reachable_after(first.bb) and \
+                not any(x not in b.reachable(second.bb) and x != second.bb and b.term(x)[0] == "ret" for x in [])
+            # guard: find switch on the row's has_time (tuple field 4)
+            guard_ok = False
+            for bb in sorted(b.live):
+                t = b.term(bb)
+                if t[0] == "switch" and len(t) > 4 and t[4] == "bool":
+                    o = b.origins(t[1], through_calls=("ops::Not>::not", "::not", "::deref"))
+                    if any(x[0] == "call" and x[2].endswith("::next") and "4" in x[3] for x in o):
+                        arms = {int(v): tb for v, tb in t[2]}
+                        # `!has_time` : Not() applied -> true arm means has_time false. Accept either polarity but both pushes must sit under the same arm
+                        for tgt in set(list(arms.values()) + [t[3]]):
+                            if tgt != bb and b.dominates(tgt, cv.bb) and b.dominates(tgt, cp.bb):
+                                guard_ok = True
+            rep.examined(R142, b.path + "|midnight-paired", sample={"value_target": sorted(map(str, tgt_v)), "pattern_target": sorted(map(str, tgt_p)), "paired": paired, "guarded_by_has_time": guard_ok})
+            if not paired or not guard_ok:
+                rep.violation(R142, b.path + "|midnight-paired", "process_dt: value and pattern are not completed together under the row's has_time flag")
+            if tgt_v == tgt_p:
+                rep.violation(R142, b.path + "|midnight-targets", "process_dt: time value and time pattern are appended to the same string")
     # parse call arguments
     pc = [c for c in b.live_calls() if c.d.endswith("datetime::datetime_parse_from_str")]
     if len(pc) != 1:
